@@ -90,9 +90,10 @@ func c01Key(rs *prng, vecs []vector, netName string, kind int) []byte {
 	case 0:
 		return []byte{}
 	case 1:
-		return []byte{byte(rs.intn(0x30))}
+		return []byte{c01Selector(rs, netName)}
 	case 2:
-		return append([]byte{byte(rs.intn(0x30))}, rs.bytes(rs.intn(70))...)
+		// a valid selector followed by too few, just enough or too many bytes
+		return append([]byte{c01Selector(rs, netName)}, rs.bytes([]int{1, 2, 7, 8, 9, 16, 31, 32, 33, rs.intn(70)}[rs.intn(10)])...)
 	case 3, 4:
 		var cand []vector
 		for _, v := range vecs {
@@ -152,6 +153,18 @@ func runC01(seed uint64) {
 			if err := ni.store.inner.Put(k, ni.p.ToContentId(k), probeVal); err == nil {
 				probeKey[name] = k
 			}
+		}
+	}
+	// the storage adapters behave differently once they hold something (comparisons against stored
+	// records, range reads): pre-load the repository's genuine vectors of each network
+	for _, v := range vecs {
+		if ni := V.nets[v.Net]; ni != nil && v.Kind != "retrieval" && len(v.Key) > 0 {
+			func() {
+				defer func() { recover() }() // a vector the adapter cannot take is simply not pre-loaded
+				if err := ni.store.inner.Put(v.Key, ni.p.ToContentId(v.Key), v.Val); err == nil {
+					w.res.Probes["preloaded_"+v.Net]++
+				}
+			}()
 		}
 	}
 	w.runFor(50 * time.Millisecond)
@@ -531,4 +544,20 @@ func c01AttackerOffer(w *world, V *fullNodeT, ATT *puppet, vecs []vector, vv []u
 	w.abstract("offer %s m%d s%d", netName, op.n(1), streamKind)
 	w.probe("offer_" + netName)
 	_ = fmt.Sprint
+}
+
+// c01Selector: mostly a selector byte the network really uses, sometimes any byte.
+func c01Selector(rs *prng, netName string) byte {
+	if rs.chance(25) {
+		return byte(rs.intn(256))
+	}
+	switch netName {
+	case "history":
+		return byte(rs.intn(5))
+	case "state":
+		return byte(0x20 + rs.intn(3))
+	case "beacon":
+		return byte(0x10 + rs.intn(5))
+	}
+	return byte(rs.intn(0x30))
 }
